@@ -175,7 +175,7 @@ func (env *Env) eval(x ast.Expr) Val {
 		case SliceV:
 			i := e.toIdx(iv)
 			el := b.Ty.Underlying().(*types.Slice).Elem()
-			return env.pureLoad(PtrV{Ty: types.NewPointer(el), Rid: b.Rid, Idx: e.ar.idxAdd(b.Off, i), Root: el, NonNil: true})
+			return env.pureLoad(PtrV{Ty: types.NewPointer(el), Rid: b.Rid, Idx: e.elemIdx(b.Off, i), Root: el, NonNil: true})
 		case ArrayV:
 			i := e.toIdx(iv)
 			if b.E != nil {
@@ -194,7 +194,7 @@ func (env *Env) eval(x ast.Expr) Val {
 			if at, ok := b.Ty.Underlying().(*types.Pointer).Elem().Underlying().(*types.Array); ok {
 				i := e.toIdx(iv)
 				if b.ArrBase {
-					return env.pureLoad(PtrV{Ty: types.NewPointer(at.Elem()), Rid: b.Rid, Idx: e.ar.idxAdd(b.Idx, i), Root: b.Root, NonNil: true})
+					return env.pureLoad(PtrV{Ty: types.NewPointer(at.Elem()), Rid: b.Rid, Idx: e.elemIdx(b.Idx, i), Root: b.Root, NonNil: true})
 				}
 				np := b
 				np.Ty = types.NewPointer(at.Elem())
@@ -939,8 +939,91 @@ type specInst struct {
 	defined bool
 }
 
+// specIsRecursive: does the body mention a spec function that can reach sp again?
+func (w *World) specIsRecursive(sp *SpecFn) bool {
+	if sp.Opaque {
+		return true
+	}
+	seen := map[*SpecFn]bool{}
+	var reach func(cur *SpecFn) bool
+	reach = func(cur *SpecFn) bool {
+		if cur.Body == nil {
+			return false
+		}
+		found := false
+		ast.Inspect(cur.Body, func(n ast.Node) bool {
+			ce, ok := n.(*ast.CallExpr)
+			if !ok {
+				return true
+			}
+			id, ok := ce.Fun.(*ast.Ident)
+			if !ok {
+				return true
+			}
+			callee := w.specs[cur.PkgRel+"."+id.Name]
+			if callee == nil {
+				return true
+			}
+			if callee == sp {
+				found = true
+				return false
+			}
+			if !seen[callee] {
+				seen[callee] = true
+				if reach(callee) {
+					found = true
+				}
+			}
+			return true
+		})
+		return found
+	}
+	return reach(sp)
+}
+
+// inlineSpec evaluates a non-recursive spec function as a macro in the caller's state.
+func (env *Env) inlineSpec(sp *SpecFn, args []ast.Expr) Val {
+	var pkg *types.Package
+	for path, p := range env.e.w.pkgs {
+		if strings.TrimPrefix(path, modPrefix) == sp.PkgRel {
+			pkg = p.Types
+		}
+	}
+	if pkg == nil {
+		env.fail("no package for spec %s", sp.Name)
+	}
+	sub := &Env{e: env.e, st: env.st, old: env.old, bound: map[string]Val{}, pkg: pkg, pkgRel: sp.PkgRel, qdepth: env.qdepth}
+	cl := Clause{File: sp.File, Line: sp.Line}
+	sub.cl = &cl
+	i := 0
+	for _, f := range sp.Params {
+		t, err := resolveType(f.Type, pkg)
+		if err != nil {
+			env.fail("spec %s: %v", sp.Name, err)
+		}
+		for _, nm := range f.Names {
+			if i >= len(args) {
+				env.fail("spec %s: too few arguments", sp.Name)
+			}
+			sub.bound[nm.Name] = env.typed(env.eval(args[i]), t)
+			i++
+		}
+	}
+	if i != len(args) {
+		env.fail("spec %s: wrong number of arguments", sp.Name)
+	}
+	rt, err := resolveType(sp.Result, pkg)
+	if err != nil {
+		env.fail("spec %s: %v", sp.Name, err)
+	}
+	return sub.typed(sub.eval(sp.Body), rt)
+}
+
 func (env *Env) callSpec(sp *SpecFn, args []ast.Expr) Val {
 	e := env.e
+	if !e.w.specIsRecursive(sp) {
+		return env.inlineSpec(sp, args)
+	}
 	inst := e.specInstance(sp)
 	var vals []Val
 	pi := 0
